@@ -44,8 +44,39 @@ def engine(sched):
     return AccountingEngine(t)
 
 
+_CRAFT = {"k": 0}
+
+
+def long_history(rng):
+    """a long history under one heap-based method: four large lots with distinct prices bought at the start, then well over a thousand
+    small sales four hours apart (a lot bought after every 400th): whatever bookkeeping the engine keeps per look-up has grown past any
+    threshold by then, and the lot in use at that moment still has most of its balance"""
+    t0 = datetime(2020, 1, 2, tzinfo=timezone.utc)
+    rows = []
+    pr = [200, 150, 100, 50]
+    rng.shuffle(pr)
+    for k, p_ in enumerate(pr):
+        rows.append(["IN", 0, us(t0 + timedelta(hours=k)), 0, "BUY", 0, p_ * U, 2000 * U, 0])
+    n = rng.randint(1150, 1400)
+    for k in range(n):
+        rows.append(["OUT", 0, us(t0 + timedelta(days=1, hours=4 * k)), 0, "SELL", 0, 120 * U, U, 0])
+        if k % 400 == 399:
+            rows.append(["IN", 0, us(t0 + timedelta(days=1, hours=4 * k + 1)), 0, "BUY", 0, rng.choice([75, 125, 175]) * U, 10 * U, 0])
+    r = 3
+    for tbl in ("IN", "OUT", "INTRA"):
+        for x in rows:
+            if x[0] == tbl:
+                x[1] = r
+                r += 1
+        r += 3
+    return {"sched": {"1970": rng.choice(["hifo", "lofo", "lifo"])}, "rows": rows}
+
+
 def gen(rng, prop=None):
     """one case: {'sched': {year: method}, 'rows': [...]}; rows carry instant (µs), UTC offset (s), amounts in 1e-11 units"""
+    _CRAFT["k"] += 1
+    if _CRAFT["k"] == 5 and prop in ("C01", "C02"):
+        return long_history(rng)
     n = rng.randint(2, 14)
     pool = sorted(rng.sample(range(0, 1100), rng.randint(1, 5)))
     offs = [0] if rng.random() < 0.7 else [0, -8 * 3600, 5 * 3600 + 1800, 14 * 3600]
